@@ -1,7 +1,7 @@
 """Stub of xdsl.dialects.memref.  A memref SSA value carries ghost run-time data:
   rt_shape[i], rt_strides[i], rt_offset (python ints or symbolic), rt_ptr (aligned pointer)."""
 from xdsl.dialects.builtin import IndexType, MemRefType, NoneAttr, StridedLayoutAttr
-from xdsl.ir import Operation, OpResult, SSAValue, den
+from xdsl.ir import IRUses, Operation, OpResult, SSAValue, den
 
 
 class MemRefValue(SSAValue):
@@ -12,7 +12,7 @@ class MemRefValue(SSAValue):
         self.type = type
         self.owner = owner
         self.name_hint = None
-        self.uses = []
+        self.uses = IRUses()
         self.rt_shape = list(rt_shape)
         self.rt_strides = list(rt_strides) if rt_strides is not None else None
         self.rt_offset = rt_offset
@@ -104,3 +104,35 @@ class CopyOp(Operation):
     @property
     def destination(self):
         return self.operands[1]
+
+
+class MemorySpaceCastOp(Operation):
+    def __init__(self, source, dest):
+        self._init_op([source], [None], [dest])
+
+    @property
+    def source(self):
+        return self.operands[0]
+
+    @property
+    def dest(self):
+        return self.results[0]
+
+
+class SubviewOp(Operation):
+    """structure only (never constructed by contracts so far)"""
+
+    def __init__(self, source, result_type):
+        self._init_op([source], [None], [result_type])
+
+    @property
+    def source(self):
+        return self.operands[0]
+
+
+class GlobalOp(Operation):
+    pass
+
+
+class GetGlobalOp(Operation):
+    pass
